@@ -81,7 +81,7 @@ theorem negOk_push {r : Tree} (h : NegOk r) (s : Struct r) {n : Node}
 theorem built_insert {r : Tree} (b : Built r) {n : Node} (hn : ∀ c ∈ n.children, c < r.size)
     (hsmall : r.size < invalid)
     (hneg : ∀ u, simplified r n = .negated u → IsLeaf (r.get u)) : Built (insert r n).1 := by
-  have hinv := (insert_preserves_inv b.inv hn hsmall)
+  have hinv := (insert_inv b.inv hn hsmall).1
   have hch := simplified_children_lt b.inv.struct n hn
   rcases insert_spec r n with ⟨a, _, _, h⟩ | ⟨id, _, h⟩ | ⟨_, h⟩
   · rw [h] at hinv ⊢; exact b
